@@ -329,6 +329,8 @@ def rule_b(res: Results, idx: Index, m: Module, passes) -> None:
                         res.violation("R-C02b", site, key, f"chain walk follows only the first input of `{tested}` but accepts {op}, which combines up to {sch.max_input} operands element-wise: "
                                       "a non-scalar side operand keeps the old layout/shape while the first operand is re-routed", fi.qualname)
     res.analysed["first_input_walks"] = n_walks
+    if n_walks < 2:
+        raise AnalysisError(f"only {n_walks} first-input chain walks recognised (2 on the confirmed tree: transpose pairs case 1, reshape pairs)")
 
 
 def _tested_node(test: ast.AST) -> Optional[str]:
@@ -336,8 +338,21 @@ def _tested_node(test: ast.AST) -> Optional[str]:
     for n in ast.walk(test):
         if isinstance(n, ast.Compare) and isinstance(n.left, ast.Attribute) and n.left.attr == "op_type" and isinstance(n.left.value, ast.Name) and isinstance(n.ops[0], ast.In):
             return n.left.value.id
+    pc = _pred_call(test)
+    if pc is not None:
+        return pc.args[0].id  # type: ignore[attr-defined]
+    return None
+
+
+def _pred_call(test: ast.AST) -> Optional[ast.Call]:
+    """`_is_xxx(node)` as the whole test or as a conjunct of an `and`"""
     if isinstance(test, ast.Call) and len(test.args) == 1 and isinstance(test.args[0], ast.Name) and (call_name(test) or "").startswith("_is_"):
-        return test.args[0].id
+        return test
+    if isinstance(test, ast.BoolOp) and isinstance(test.op, ast.And):
+        for v in test.values:
+            r = _pred_call(v)
+            if r is not None:
+                return r
     return None
 
 
@@ -351,6 +366,9 @@ def _accepted_ops(idx: Index, m: Module, fi: FuncInfo, test: ast.AST, tested: st
                 return None
             has_side_check = any(isinstance(c, ast.Call) and _last(call_name(c)) == "_is_scalar_const_value" for c in ast.walk(test))
             return {op: has_side_check for op in s}
+    pc = _pred_call(test)
+    if pc is not None:
+        test = pc
     if isinstance(test, ast.Call):
         g = idx.resolve_func(m, call_name(test) or "", scope=fi)
         if g is None:
@@ -768,6 +786,7 @@ def run(res: Results, idx: Index, tier: str) -> None:
     rule_j(res, idx, m)
     rule_k(res, idx, m)
     rule_l(res, idx, m)
+    rule_m(res, idx, m)
 
 
 # ---------------------------------------------------------------------------------------------- R-C02k
@@ -1016,3 +1035,59 @@ def rule_l(res: Results, idx: Index, m: Module) -> None:
         else:
             res.violation("R-C02l", site, key, f"`{fi.name}` accepts a node by `op_type in {tests[0].comparators[0].id}` without looking at its domain: an @onnx_function call node named like a point-wise operator is folded through as if it were that operator", fi.qualname)
     res.analysed["operator_table_predicates"] = n
+
+
+# ---------------------------------------------------------------------------------------------- R-C02m
+def rule_m(res: Results, idx: Index, m: Module) -> None:
+    """A FORWARD chain walk visits the consumers of a value.  `_is_first_input_passthrough(n)` only says that `n` commutes
+    with a layout change of its FIRST operand; a consumer that reads the walked value at another position (CastLike: the
+    second operand supplies a type only) is not part of the data path.  Where the node tested by the predicate comes from
+    `_consumer_nodes(…)`, the accepting branch must also require `_first_input(n) is <walked value>` (or
+    `_node_inputs(n)[0] is …`).  Backward walks (`_producer_node` / `_first_input`) follow the first input by construction."""
+    res.rule("R-C02m", "forward chain walks accept a consumer only when the walked value is its first input", floor=1)
+    n = 0
+    for fi in m.funcs.values():
+        du = defuse(fi.node)
+        for c in walk_no_nested(fi.node):
+            if not (isinstance(c, ast.Call) and _last(call_name(c)) == "_is_first_input_passthrough" and c.args and isinstance(c.args[0], ast.Name)):
+                continue
+            node_name = c.args[0].id
+            clo = du.closure({node_name}) | {node_name}
+            forward = any(isinstance(x, ast.Call) and _last(call_name(x)) == "_consumer_nodes" for nm in clo for v in du.values(nm) for x in ast.walk(v))
+            backward = any(isinstance(x, ast.Call) and _last(call_name(x)) in ("_producer_node",) for v in du.values(node_name) for x in ast.walk(v))
+            key = _key(fi, f"forward-walk::{node_name}@{_nth_call(fi, c)}")
+            site = f"{OPT}:{c.lineno}"
+            if not forward or backward and not forward:
+                continue
+            n += 1
+            # the test expression the call sits in
+            test = c
+            while getattr(test, "parent", None) is not None and not isinstance(getattr(test, "parent"), (ast.If, ast.While, ast.IfExp)):
+                test = getattr(test, "parent")
+            holder = getattr(test, "parent", None)
+            texpr = holder.test if isinstance(holder, (ast.If, ast.While, ast.IfExp)) else test
+            conds = [texpr] + [e for e, want in path_conditions(c) if want]
+            ok = False
+            for e in conds:
+                for cmp_ in ast.walk(e):
+                    if isinstance(cmp_, ast.Compare) and len(cmp_.ops) == 1 and isinstance(cmp_.ops[0], (ast.Is, ast.Eq)):
+                        sides = [cmp_.left, cmp_.comparators[0]]
+                        for s_ in sides:
+                            if isinstance(s_, ast.Call) and _last(call_name(s_)) == "_first_input" and s_.args and isinstance(s_.args[0], ast.Name) and s_.args[0].id == node_name:
+                                ok = True
+                            if isinstance(s_, ast.Subscript) and isinstance(s_.value, ast.Call) and _last(call_name(s_.value)) == "_node_inputs" and isinstance(s_.slice, ast.Constant) and s_.slice.value == 0 \
+                                    and s_.value.args and isinstance(s_.value.args[0], ast.Name) and s_.value.args[0].id == node_name:
+                                ok = True
+            if ok:
+                res.ok("R-C02m", site, key, f"`{node_name}` is accepted only when its first input is the walked value", fi.qualname)
+            else:
+                res.violation("R-C02m", site, key, f"`{src(texpr, 70)}` accepts any consumer of the walked value that is a first-input passthrough operator, whichever input position the value has: "
+                              "`Transpose(x) -> CastLike(a, ·) -> Transpose` is folded to `CastLike(a, x)`, changing the result's layout and values", fi.qualname)
+    res.analysed["forward_chain_walks"] = n
+    if n == 0:
+        raise AnalysisError("no forward chain walk using _is_first_input_passthrough found (1 on the confirmed tree)")
+
+
+def _nth_call(fi: FuncInfo, c: ast.AST) -> int:
+    calls = [x for x in walk_no_nested(fi.node) if isinstance(x, ast.Call) and _last(call_name(x)) == "_is_first_input_passthrough"]
+    return next(i for i, x in enumerate(calls) if x is c)
